@@ -134,7 +134,7 @@ func (vfs *RoFS) Clean(path string) string {
 func (vfs *RoFS) Create(name string) (avfs.File, error) {
 	const op = "open"
 
-	return &RoFile{}, &fs.PathError{Op: op, Path: name, Err: vfs.errPermDenied}
+	return (*RoFile)(nil), &fs.PathError{Op: op, Path: name, Err: vfs.errPermDenied}
 }
 
 // CreateTemp creates a new temporary file in the directory dir,
@@ -148,7 +148,7 @@ func (vfs *RoFS) Create(name string) (avfs.File, error) {
 func (vfs *RoFS) CreateTemp(dir, pattern string) (avfs.File, error) {
 	const op = "createtemp"
 
-	return &RoFile{}, &fs.PathError{Op: op, Path: dir, Err: vfs.errPermDenied}
+	return (*RoFile)(nil), &fs.PathError{Op: op, Path: dir, Err: vfs.errPermDenied}
 }
 
 // Dir returns all but the last element of path, typically the path's directory.
